@@ -6,7 +6,7 @@ import FastgoModel.Writer.HuffControl
 -/
 namespace Fastgo.Writer
 open Fastgo.Spec
-variable {σ : Type}
+variable {σ : Type} {base : Nat} {H : List UInt8}
 
 /-- leaf contract: one Huffman-only block that the specification inflater decodes to the buffered bytes -/
 structure HSound (L : HuffLeaf σ) (mode : Mode) : Prop where
@@ -16,29 +16,38 @@ structure HSound (L : HuffLeaf σ) (mode : Mode) : Prop where
       (final = true → (L.encode ls buf final carry).2.1 = [] ∧
         bytesToBits (L.encode ls buf final carry).1.flatten = carry ++ B ++ List.replicate (padLen (carry ++ B).length) false)
 
-structure HInv (mode : Mode) (D : List UInt8) (s : Huff σ) (d : Dst) : Prop where
+structure HInv (mode : Mode) (base : Nat) (H : List UInt8) (D : List UInt8) (s : Huff σ) (d : Dst) : Prop where
   healthy : d.Healthy
+  baseLe  : base ≤ d.bytes.length
+  pre     : d.bytes.take base = H
   chain : ∃ n q, q + s.buf.length = D.length ∧ s.buf = D.drop q ∧
-    Chain mode n 0 (bytesToBits d.bytes ++ s.carry) #[] (D.take q)
+    Chain mode n 0 (bytesToBits (body base d) ++ s.carry) #[] (D.take q)
 
-theorem hinv_init (mode : Mode) (ls : σ) (d : Dst) (hh : d.Healthy) (hd : d.got = []) : HInv mode [] { ls := ls } d := by
-  refine ⟨hh, 0, 0, rfl, rfl, ?_⟩
-  simp [Dst.bytes, hd, bytesToBits]; exact Chain.nil 0 #[]
+/-- a compressor with nothing buffered, at the point of the destination where its stream will begin -/
+theorem hinv_fresh (mode : Mode) (s : Huff σ) (d : Dst) (hh : d.Healthy) (h1 : s.buf = []) (h2 : s.carry = []) :
+    HInv mode d.bytes.length d.bytes [] s d := by
+  refine ⟨hh, Nat.le_refl _, List.take_length, 0, 0, by simp [h1], by simp [h1], ?_⟩
+  simp [body, h2, bytesToBits]; exact Chain.nil 0 #[]
 
-theorem hAccumulate_inv (mode : Mode) (max : Nat) (D data : List UInt8) (s : Huff σ) (d : Dst) (hi : HInv mode D s d) :
-    HInv mode (D ++ data.take (hAccumulate max s data).2.1) (hAccumulate max s data).1 d := by
+theorem hinv_init (mode : Mode) (ls : σ) (d : Dst) (hh : d.Healthy) (hd : d.got = []) : HInv mode 0 [] [] { ls := ls } d := by
+  have := hinv_fresh mode ({ ls := ls } : Huff σ) d hh rfl rfl
+  have hl : d.bytes = [] := by simp [Dst.bytes, hd]
+  rw [hl] at this; exact this
+
+theorem hAccumulate_inv (mode : Mode) (max : Nat) (D data : List UInt8) (s : Huff σ) (d : Dst) (hi : HInv mode base H D s d) :
+    HInv mode base H (D ++ data.take (hAccumulate max s data).2.1) (hAccumulate max s data).1 d := by
   obtain ⟨n, q, h1, h2, h3⟩ := hi.chain
   unfold hAccumulate
   dsimp only
-  refine ⟨hi.healthy, n, q, ?_, ?_, ?_⟩
+  refine ⟨hi.healthy, hi.baseLe, hi.pre, n, q, ?_, ?_, ?_⟩
   · simp only [List.length_append]; omega
   · rw [List.drop_append_of_le_length (by omega), ← h2]
   · rw [List.take_append_of_le_length (by omega)]; exact h3
 
 /-- a non-final encodeBlock on a healthy destination: succeeds, empties the buffer, extends the chain to all of D -/
 theorem hEncode_nonfinal (L : HuffLeaf σ) {mode : Mode} (S : HSound L mode) (D : List UInt8) (s : Huff σ) (d : Dst)
-    (hi : HInv mode D s d) :
-    (hEncodeBlock L false s d).2.2 = true ∧ HInv mode D (hEncodeBlock L false s d).1 (hEncodeBlock L false s d).2.1 ∧
+    (hi : HInv mode base H D s d) :
+    (hEncodeBlock L false s d).2.2 = true ∧ HInv mode base H D (hEncodeBlock L false s d).1 (hEncodeBlock L false s d).2.1 ∧
     (hEncodeBlock L false s d).1.buf = [] := by
   obtain ⟨n, q, h1, h2, h3⟩ := hi.chain
   unfold hEncodeBlock
@@ -48,26 +57,27 @@ theorem hEncode_nonfinal (L : HuffLeaf σ) {mode : Mode} (S : HSound L mode) (D 
     exact ⟨rfl, hi, hb⟩
   · rw [if_neg hb]
     obtain ⟨w1, w2, w3⟩ := writeAll_healthy d hi.healthy (L.encode s.ls s.buf false s.carry).1
-    obtain ⟨B, hB, hnf, _⟩ := S.enc s.ls s.buf false s.carry (D.take q) (bytesToBits d.bytes ++ s.carry).length hb
+    obtain ⟨B, hB, hnf, _⟩ := S.enc s.ls s.buf false s.carry (D.take q) (bytesToBits (body base d) ++ s.carry).length hb
     have hbits := hnf rfl
     generalize hwa : d.writeAll (L.encode s.ls s.buf false s.carry).1 = wa at w1 w2 w3
     obtain ⟨d1, b⟩ := wa
     simp only at w1 w2 w3
     subst w1
     simp only
-    refine ⟨trivial, ⟨w2, n + 1, D.length, by simp, by simp, ?_⟩, trivial⟩
-    show Chain mode (n + 1) 0 (bytesToBits d1.bytes ++ (L.encode s.ls s.buf false s.carry).2.1) #[] (D.take D.length)
-    rw [w3, bytesToBits_append, List.append_assoc, hbits, ← List.append_assoc, List.take_length]
+    obtain ⟨b1, b2, b3⟩ := body_append base d _ _ hi.baseLe w3
+    refine ⟨trivial, ⟨w2, b2, b3.trans hi.pre, n + 1, D.length, by simp, by simp, ?_⟩, trivial⟩
+    show Chain mode (n + 1) 0 (bytesToBits (body base d1) ++ (L.encode s.ls s.buf false s.carry).2.1) #[] (D.take D.length)
+    rw [b1, bytesToBits_append, List.append_assoc, hbits, ← List.append_assoc, List.take_length]
     have hsn := Chain.snoc h3 B s.buf (by simpa using hB)
     rw [h2, List.take_append_drop] at hsn
     exact hsn
 
 theorem hWriteLoop_inv (L : HuffLeaf σ) {mode : Mode} (S : HSound L mode) (max : Nat)
-    (fuel : Nat) (D data : List UInt8) (w : HState σ) (num : Nat) (hi : HInv mode D w.huff w.dst) :
+    (fuel : Nat) (D data : List UInt8) (w : HState σ) (num : Nat) (hi : HInv mode base H D w.huff w.dst) :
     (hWriteLoop L max fuel w data num).2.err = none →
       (hWriteLoop L max fuel w data num).1.err = w.err ∧
       ∃ k, (hWriteLoop L max fuel w data num).2.n = num + k ∧ k ≤ data.length ∧
-        HInv mode (D ++ data.take k) (hWriteLoop L max fuel w data num).1.huff (hWriteLoop L max fuel w data num).1.dst := by
+        HInv mode base H (D ++ data.take k) (hWriteLoop L max fuel w data num).1.huff (hWriteLoop L max fuel w data num).1.dst := by
   induction fuel generalizing D data w num with
   | zero =>
     intro _
@@ -117,11 +127,12 @@ theorem hWriteLoop_inv (L : HuffLeaf σ) {mode : Mode} (S : HSound L mode) (max 
           · rw [List.length_drop] at e3; omega
           · rw [hcomb k] at e4; exact e4
 
-def HTracks (mode : Mode) (D : List UInt8) (w : HState σ) : Prop := w.err = none ∧ HInv mode D w.huff w.dst
+def HTracks (mode : Mode) (base : Nat) (H : List UInt8) (D : List UInt8) (w : HState σ) : Prop :=
+  w.err = none ∧ HInv mode base H D w.huff w.dst
 
 theorem hWrite_tracks (L : HuffLeaf σ) {mode : Mode} (S : HSound L mode) (max : Nat) (D data : List UInt8)
-    (w : HState σ) (ht : HTracks mode D w) (he : (hWrite L max w data).2.err = none) :
-    HTracks mode (D ++ data.take (hWrite L max w data).2.n) (hWrite L max w data).1 := by
+    (w : HState σ) (ht : HTracks mode base H D w) (he : (hWrite L max w data).2.err = none) :
+    HTracks mode base H (D ++ data.take (hWrite L max w data).2.n) (hWrite L max w data).1 := by
   unfold hWrite at he ⊢
   rw [ht.1] at he ⊢
   simp only at he ⊢
@@ -132,9 +143,9 @@ theorem hWrite_tracks (L : HuffLeaf σ) {mode : Mode} (S : HSound L mode) (max :
 
 /-- Flush: succeeds on a healthy destination; everything written is a chain of complete blocks at the destination -/
 theorem hFlush_tracks (L : HuffLeaf σ) {mode : Mode} (S : HSound L mode) (D : List UInt8) (w : HState σ)
-    (ht : HTracks mode D w) :
-    (hFlush L w).2.err = none ∧ HTracks mode D (hFlush L w).1 ∧ (hFlush L w).1.huff.carry = [] ∧
-    ∃ n, Chain mode n 0 (bytesToBits (hFlush L w).1.dst.bytes) #[] D := by
+    (ht : HTracks mode base H D w) :
+    (hFlush L w).2.err = none ∧ HTracks mode base H D (hFlush L w).1 ∧ (hFlush L w).1.huff.carry = [] ∧
+    ∃ n, Chain mode n 0 (bytesToBits (body base (hFlush L w).1.dst)) #[] D := by
   unfold hFlush
   rw [ht.1]
   simp only
@@ -153,27 +164,29 @@ theorem hFlush_tracks (L : HuffLeaf σ) {mode : Mode} (S : HSound L mode) (D : L
   simp only at w1 w2 w3
   subst w1
   simp only
-  have hpos : (bytesToBits d1.bytes ++ s1.carry).length % 8 = s1.carry.length % 8 := by
+  obtain ⟨b1, b2, b3⟩ := body_append base d1 _ _ c2.baseLe w3
+  have hpos : (bytesToBits (body base d1) ++ s1.carry).length % 8 = s1.carry.length % 8 := by
     rw [List.length_append, bytesToBits_length]; omega
-  have hbits : bytesToBits d2.bytes = (bytesToBits d1.bytes ++ s1.carry) ++ storedEmptyBits (bytesToBits d1.bytes ++ s1.carry).length false := by
-    rw [w3, bytesToBits_append, emptyStored_bits s1.carry false _ hpos, List.append_assoc]
-  have hch2 : Chain mode (n + 1) 0 (bytesToBits d2.bytes) #[] D := by
-    have := Chain.snoc h3 (storedEmptyBits (bytesToBits d1.bytes ++ s1.carry).length false) []
+  have hbits : bytesToBits (body base d2) = (bytesToBits (body base d1) ++ s1.carry) ++ storedEmptyBits (bytesToBits (body base d1) ++ s1.carry).length false := by
+    rw [b1, bytesToBits_append, emptyStored_bits s1.carry false _ hpos, List.append_assoc]
+  have hch2 : Chain mode (n + 1) 0 (bytesToBits (body base d2)) #[] D := by
+    have := Chain.snoc h3 (storedEmptyBits (bytesToBits (body base d1) ++ s1.carry).length false) []
       (by simpa using storedEmpty_isBlock mode _ false _)
     rw [← hbits, List.append_nil] at this
     exact this
-  refine ⟨trivial, ⟨rfl, w2, n + 1, D.length, ?_, ?_, ?_⟩, trivial, n + 1, hch2⟩
+  refine ⟨trivial, ⟨rfl, w2, b2, b3.trans c2.pre, n + 1, D.length, ?_, ?_, ?_⟩, trivial, n + 1, hch2⟩
   · show D.length + s1.buf.length = D.length
     rw [c3]; rfl
   · show s1.buf = D.drop D.length
     rw [c3]; simp
-  · show Chain mode (n + 1) 0 (bytesToBits d2.bytes ++ []) #[] (D.take D.length)
+  · show Chain mode (n + 1) 0 (bytesToBits (body base d2) ++ []) #[] (D.take D.length)
     rw [List.append_nil, List.take_length]; exact hch2
 
 /-- Close: succeeds on a healthy destination and completes the stream -/
 theorem hClose_tracks (L : HuffLeaf σ) {mode : Mode} (S : HSound L mode) (D : List UInt8) (w : HState σ)
-    (ht : HTracks mode D w) :
-    (hClose L w).2.err = none ∧ (hClose L w).1.err = some .closed ∧ ClosedStream mode D (hClose L w).1.dst.bytes := by
+    (ht : HTracks mode base H D w) :
+    (hClose L w).2.err = none ∧ (hClose L w).1.err = some .closed ∧ ClosedStream mode D (body base (hClose L w).1.dst) ∧
+    (hClose L w).1.dst.Healthy ∧ base ≤ (hClose L w).1.dst.bytes.length ∧ (hClose L w).1.dst.bytes.take base = H := by
   unfold hClose
   rw [ht.1]
   simp only
@@ -188,17 +201,18 @@ theorem hClose_tracks (L : HuffLeaf σ) {mode : Mode} (S : HSound L mode) (D : L
     simp only at w1 w2 w3
     subst w1
     simp only
-    refine ⟨trivial, trivial, n, q, bytesToBits w.dst.bytes ++ w.huff.carry,
-      storedEmptyBits (bytesToBits w.dst.bytes ++ w.huff.carry).length true, [], h3, ?_, ?_, by simp, by simp⟩
+    obtain ⟨b1, b2, b3⟩ := body_append base w.dst _ _ ht.2.baseLe w3
+    refine ⟨trivial, trivial, ⟨n, q, bytesToBits (body base w.dst) ++ w.huff.carry,
+      storedEmptyBits (bytesToBits (body base w.dst) ++ w.huff.carry).length true, [], h3, ?_, ?_, by simp, by simp⟩, w2, b2, b3.trans ht.2.pre⟩
     · have : D.drop q = [] := by rw [hq]; simp
       rw [this]; exact storedEmpty_isBlock mode _ true _
-    · have hpos : (bytesToBits w.dst.bytes ++ w.huff.carry).length % 8 = w.huff.carry.length % 8 := by
+    · have hpos : (bytesToBits (body base w.dst) ++ w.huff.carry).length % 8 = w.huff.carry.length % 8 := by
         rw [List.length_append, bytesToBits_length]; omega
-      rw [w3, bytesToBits_append, emptyStored_bits w.huff.carry true _ hpos]
+      rw [b1, bytesToBits_append, emptyStored_bits w.huff.carry true _ hpos]
       simp [List.append_assoc]
   · have hne : ¬ (true = true ∧ w.huff.buf = []) := fun h => hb h.2
     rw [if_neg hne, if_neg hb]
-    obtain ⟨B, hB, _, hfin⟩ := S.enc w.huff.ls w.huff.buf true w.huff.carry (D.take q) (bytesToBits w.dst.bytes ++ w.huff.carry).length hb
+    obtain ⟨B, hB, _, hfin⟩ := S.enc w.huff.ls w.huff.buf true w.huff.carry (D.take q) (bytesToBits (body base w.dst) ++ w.huff.carry).length hb
     obtain ⟨hc0, hbits⟩ := hfin rfl
     obtain ⟨w1, w2, w3⟩ := writeAll_healthy w.dst ht.2.healthy (L.encode w.huff.ls w.huff.buf true w.huff.carry).1
     generalize hwa : w.dst.writeAll (L.encode w.huff.ls w.huff.buf true w.huff.carry).1 = wa at w1 w2 w3
@@ -206,18 +220,19 @@ theorem hClose_tracks (L : HuffLeaf σ) {mode : Mode} (S : HSound L mode) (D : L
     simp only at w1 w2 w3
     subst w1
     simp only
-    refine ⟨trivial, trivial, n, q, bytesToBits w.dst.bytes ++ w.huff.carry, B,
+    obtain ⟨b1, b2, b3⟩ := body_append base w.dst _ _ ht.2.baseLe w3
+    refine ⟨trivial, trivial, ⟨n, q, bytesToBits (body base w.dst) ++ w.huff.carry, B,
       List.replicate (padLen (w.huff.carry ++ B).length) false, h3, ?_, ?_,
-      by rw [List.length_replicate]; exact padLen_lt _, fun b hb => (List.mem_replicate.mp hb).2⟩
+      by rw [List.length_replicate]; exact padLen_lt _, fun b hb => (List.mem_replicate.mp hb).2⟩, w2, b2, b3.trans ht.2.pre⟩
     · rw [h2] at hB; exact hB
-    · rw [w3, bytesToBits_append, hbits]; simp [List.append_assoc]
+    · rw [b1, bytesToBits_append, hbits]; simp [List.append_assoc]
 
 theorem htracks_reset (mode : Mode) (w : HState σ) (d : Dst) (hh : d.Healthy) (hd : d.got = []) :
-    HTracks mode [] (hReset w d) := ⟨rfl, hinv_init mode w.huff.ls d hh hd⟩
+    HTracks mode 0 [] [] (hReset w d) := ⟨rfl, hinv_init mode w.huff.ls d hh hd⟩
 
 theorem hStep_tracks (L : HuffLeaf σ) {mode : Mode} (S : HSound L mode) (max : Nat) (D : List UInt8)
-    (w : HState σ) (ht : HTracks mode D w) (op : Op) (hop : op.keepsOpen) (he : (hStep L max w op).2.err = none) :
-    HTracks mode (dataAfter D op (hStep L max w op).2) (hStep L max w op).1 := by
+    (w : HState σ) (ht : HTracks mode 0 [] D w) (op : Op) (hop : op.keepsOpen) (he : (hStep L max w op).2.err = none) :
+    HTracks mode 0 [] (dataAfter D op (hStep L max w op).2) (hStep L max w op).1 := by
   cases op with
   | write data => exact hWrite_tracks L S max D data w ht he
   | flush => exact (hFlush_tracks L S D w ht).2.1
@@ -225,9 +240,9 @@ theorem hStep_tracks (L : HuffLeaf σ) {mode : Mode} (S : HSound L mode) (max : 
   | reset d => exact htracks_reset mode w d hop.1 hop.2
 
 theorem hRun_tracks (L : HuffLeaf σ) {mode : Mode} (S : HSound L mode) (max : Nat)
-    (ops : List Op) (D : List UInt8) (w : HState σ) (ht : HTracks mode D w)
+    (ops : List Op) (D : List UInt8) (w : HState σ) (ht : HTracks mode 0 [] D w)
     (hops : ∀ op ∈ ops, op.keepsOpen) (he : ∀ r ∈ (hRun L max w ops).2, r.err = none) :
-    HTracks mode (dataAfterAll D ops (hRun L max w ops).2) (hRun L max w ops).1 := by
+    HTracks mode 0 [] (dataAfterAll D ops (hRun L max w ops).2) (hRun L max w ops).1 := by
   induction ops generalizing D w with
   | nil => simpa [hRun, dataAfterAll] using ht
   | cons op ops ih =>
